@@ -229,7 +229,7 @@ def _lin_assemble(L, vb, extra):
     return (np.asarray(rows).reshape(-1),), data, shape, lshape
 
 
-MESH_KIND = dict(line2='line', line3='line', line3perm='line', tri1='tri', tri2='tri', tri2perm='tri', tri3fan='tri',
+MESH_KIND = dict(tri2heron='tri', line2='line', line3='line', line3perm='line', tri1='tri', tri2='tri', tri2perm='tri', tri3fan='tri',
                  tri4patch='tri', quad1='quad', quad2='quad', tet1='tet', tet2='tet', hex1='hex', hex2='hex', wedge1='wedge')
 
 
@@ -288,9 +288,13 @@ def build_configs(tier, seed):
     add('tri2', 'TriP1', 'nonsym', 'cell', trial=('TriP2', None))
     add('tri2', 'TriP2', 'wx', 'cell', trial=('TriP1', None))
     add('tri2', 'TriP1', 'mass', 'ifacet-0', trial=('TriP1', 'ifacet-1'))
+    # a coefficient-vector parameter belongs to the TRIAL basis: different sides / different elements for trial and test
+    add('tri2', 'TriP1', 'field', 'ifacet-0', trial=('TriP1', 'ifacet-1'))
+    add('tri2', 'TriP2', 'gradfield', 'cell', trial=('TriP1', None))
     # globally defined elements: numeric geometry (their V matrix comes from the float LAPACK inverse)
     for el in ['TriMorley'] + ([] if quick else ['TriArgyris', 'TriHermite']):
-        add('tri2', el, 'hess' if el != 'TriHermite' else 'nonsym', 'cell', free='none')
+        # Heronian cells: unit normals are rational, so the exact Vandermonde inverse stays in the rationals
+        add('tri2heron', el, 'hess' if el != 'TriHermite' else 'nonsym', 'cell', free='none')
     # --- 1-D ------------------------------------------------------------------------------------------------
     for el in ['LineP1', 'LineP2', 'LineMini', 'LinePp3'] + ([] if quick else ['LineP0']):
         for f in (['nonsym', 'wx'] if quick else scalar_forms):
